@@ -191,6 +191,8 @@ DEATH_PATTERNS = [
 
 
 def classify_death(log_tail):
+    if "panic: test timed out" in log_tail:
+        return None  # a time budget, never a violation
     for pat, kind in DEATH_PATTERNS:
         if pat.search(log_tail):
             return kind
